@@ -32,7 +32,7 @@ Definition strip_cwd (cwd p : str) : str :=
     if prefixb cwd p then
       match skipn (length cwd) p with
       | [] => [c_dot]
-      | c :: rest => if N.eqb c c_slash then (match rest with [] => [c_dot] | _ => rest end) else p
+      | c :: rest => if N.eqb c c_slash || N.eqb c c_bslash then (match rest with [] => [c_dot] | _ => rest end) else p
       end
     else p
   end.
